@@ -25,12 +25,12 @@ type vVecCase struct {
 	wide bool // first operand ranges over all 64-bit words
 	// documented lazy input ranges: p1 < lazy1·q, p2 < lazy2·q (0 means 1)
 	lazy1, lazy2 uint64
-	run  func(s *SubRing, p1, p2, p3 []uint64, a, b uint64)
-	lane func(s *SubRing, x, y, z, a, b uint64) uint64
-	spec func(s *SubRing, out, x, y, z, a, b uint64) bool
+	run          func(s *SubRing, p1, p2, p3 []uint64, a, b uint64)
+	lane         func(s *SubRing, x, y, z, a, b uint64) uint64
+	spec         func(s *SubRing, out, x, y, z, a, b uint64) bool
 }
 
-func vMulB(x, y uint64) *big.Int { return new(big.Int).Mul(vB(x), vB(y)) }
+func vMulB(x, y uint64) *big.Int   { return new(big.Int).Mul(vB(x), vB(y)) }
 func vAddB(a, b *big.Int) *big.Int { return new(big.Int).Add(a, b) }
 func vSubB(a, b *big.Int) *big.Int { return new(big.Int).Sub(a, b) }
 
@@ -39,7 +39,9 @@ func vVecCases() []vVecCase {
 		{name: "Add",
 			run:  func(s *SubRing, p1, p2, p3 []uint64, a, b uint64) { s.Add(p1, p2, p3) },
 			lane: func(s *SubRing, x, y, z, a, b uint64) uint64 { return CRed(x+y, s.Modulus) },
-			spec: func(s *SubRing, o, x, y, z, a, b uint64) bool { return o < s.Modulus && vCong(vB(o), vAddB(vB(x), vB(y)), s.Modulus) }},
+			spec: func(s *SubRing, o, x, y, z, a, b uint64) bool {
+				return o < s.Modulus && vCong(vB(o), vAddB(vB(x), vB(y)), s.Modulus)
+			}},
 		{name: "AddLazy",
 			run:  func(s *SubRing, p1, p2, p3 []uint64, a, b uint64) { s.AddLazy(p1, p2, p3) },
 			lane: func(s *SubRing, x, y, z, a, b uint64) uint64 { return x + y },
@@ -47,15 +49,21 @@ func vVecCases() []vVecCase {
 		{name: "Sub",
 			run:  func(s *SubRing, p1, p2, p3 []uint64, a, b uint64) { s.Sub(p1, p2, p3) },
 			lane: func(s *SubRing, x, y, z, a, b uint64) uint64 { return CRed((x+s.Modulus)-y, s.Modulus) },
-			spec: func(s *SubRing, o, x, y, z, a, b uint64) bool { return o < s.Modulus && vCong(vB(o), vSubB(vB(x), vB(y)), s.Modulus) }},
+			spec: func(s *SubRing, o, x, y, z, a, b uint64) bool {
+				return o < s.Modulus && vCong(vB(o), vSubB(vB(x), vB(y)), s.Modulus)
+			}},
 		{name: "SubLazy",
 			run:  func(s *SubRing, p1, p2, p3 []uint64, a, b uint64) { s.SubLazy(p1, p2, p3) },
 			lane: func(s *SubRing, x, y, z, a, b uint64) uint64 { return x + s.Modulus - y },
-			spec: func(s *SubRing, o, x, y, z, a, b uint64) bool { return o < 2*s.Modulus && vCong(vB(o), vSubB(vB(x), vB(y)), s.Modulus) }},
+			spec: func(s *SubRing, o, x, y, z, a, b uint64) bool {
+				return o < 2*s.Modulus && vCong(vB(o), vSubB(vB(x), vB(y)), s.Modulus)
+			}},
 		{name: "Neg",
 			run:  func(s *SubRing, p1, p2, p3 []uint64, a, b uint64) { s.Neg(p1, p3) },
 			lane: func(s *SubRing, x, y, z, a, b uint64) uint64 { return s.Modulus - x },
-			spec: func(s *SubRing, o, x, y, z, a, b uint64) bool { return o <= s.Modulus && vCong(vAddB(vB(o), vB(x)), new(big.Int), s.Modulus) }},
+			spec: func(s *SubRing, o, x, y, z, a, b uint64) bool {
+				return o <= s.Modulus && vCong(vAddB(vB(o), vB(x)), new(big.Int), s.Modulus)
+			}},
 		{name: "Reduce", wide: true,
 			run:  func(s *SubRing, p1, p2, p3 []uint64, a, b uint64) { s.Reduce(p1, p3) },
 			lane: func(s *SubRing, x, y, z, a, b uint64) uint64 { return BRedAdd(x, s.Modulus, s.BRedConstant) },
@@ -63,7 +71,9 @@ func vVecCases() []vVecCase {
 		{name: "ReduceLazy", wide: true,
 			run:  func(s *SubRing, p1, p2, p3 []uint64, a, b uint64) { s.ReduceLazy(p1, p3) },
 			lane: func(s *SubRing, x, y, z, a, b uint64) uint64 { return BRedAddLazy(x, s.Modulus, s.BRedConstant) },
-			spec: func(s *SubRing, o, x, y, z, a, b uint64) bool { return o < 2*s.Modulus && vCong(vB(o), vB(x), s.Modulus) }},
+			spec: func(s *SubRing, o, x, y, z, a, b uint64) bool {
+				return o < 2*s.Modulus && vCong(vB(o), vB(x), s.Modulus)
+			}},
 		{name: "MulCoeffsLazy",
 			run:  func(s *SubRing, p1, p2, p3 []uint64, a, b uint64) { s.MulCoeffsLazy(p1, p2, p3) },
 			lane: func(s *SubRing, x, y, z, a, b uint64) uint64 { return x * y },
@@ -75,14 +85,20 @@ func vVecCases() []vVecCase {
 		{name: "MulCoeffsBarrett",
 			run:  func(s *SubRing, p1, p2, p3 []uint64, a, b uint64) { s.MulCoeffsBarrett(p1, p2, p3) },
 			lane: func(s *SubRing, x, y, z, a, b uint64) uint64 { return BRed(x, y, s.Modulus, s.BRedConstant) },
-			spec: func(s *SubRing, o, x, y, z, a, b uint64) bool { return o < s.Modulus && vCong(vB(o), vMulB(x, y), s.Modulus) }},
+			spec: func(s *SubRing, o, x, y, z, a, b uint64) bool {
+				return o < s.Modulus && vCong(vB(o), vMulB(x, y), s.Modulus)
+			}},
 		{name: "MulCoeffsBarrettLazy",
 			run:  func(s *SubRing, p1, p2, p3 []uint64, a, b uint64) { s.MulCoeffsBarrettLazy(p1, p2, p3) },
 			lane: func(s *SubRing, x, y, z, a, b uint64) uint64 { return BRedLazy(x, y, s.Modulus, s.BRedConstant) },
-			spec: func(s *SubRing, o, x, y, z, a, b uint64) bool { return o < 2*s.Modulus && vCong(vB(o), vMulB(x, y), s.Modulus) }},
+			spec: func(s *SubRing, o, x, y, z, a, b uint64) bool {
+				return o < 2*s.Modulus && vCong(vB(o), vMulB(x, y), s.Modulus)
+			}},
 		{name: "MulCoeffsBarrettThenAdd",
-			run:  func(s *SubRing, p1, p2, p3 []uint64, a, b uint64) { s.MulCoeffsBarrettThenAdd(p1, p2, p3) },
-			lane: func(s *SubRing, x, y, z, a, b uint64) uint64 { return CRed(z+BRed(x, y, s.Modulus, s.BRedConstant), s.Modulus) },
+			run: func(s *SubRing, p1, p2, p3 []uint64, a, b uint64) { s.MulCoeffsBarrettThenAdd(p1, p2, p3) },
+			lane: func(s *SubRing, x, y, z, a, b uint64) uint64 {
+				return CRed(z+BRed(x, y, s.Modulus, s.BRedConstant), s.Modulus)
+			},
 			spec: func(s *SubRing, o, x, y, z, a, b uint64) bool {
 				return o < s.Modulus && vCong(vB(o), vAddB(vB(z), vMulB(x, y)), s.Modulus)
 			}},
@@ -95,14 +111,20 @@ func vVecCases() []vVecCase {
 		{name: "MulCoeffsMontgomery",
 			run:  func(s *SubRing, p1, p2, p3 []uint64, a, b uint64) { s.MulCoeffsMontgomery(p1, p2, p3) },
 			lane: func(s *SubRing, x, y, z, a, b uint64) uint64 { return MRed(x, y, s.Modulus, s.MRedConstant) },
-			spec: func(s *SubRing, o, x, y, z, a, b uint64) bool { return o < s.Modulus && vCong(vShl64(o), vMulB(x, y), s.Modulus) }},
+			spec: func(s *SubRing, o, x, y, z, a, b uint64) bool {
+				return o < s.Modulus && vCong(vShl64(o), vMulB(x, y), s.Modulus)
+			}},
 		{name: "MulCoeffsMontgomeryLazy",
 			run:  func(s *SubRing, p1, p2, p3 []uint64, a, b uint64) { s.MulCoeffsMontgomeryLazy(p1, p2, p3) },
 			lane: func(s *SubRing, x, y, z, a, b uint64) uint64 { return MRedLazy(x, y, s.Modulus, s.MRedConstant) },
-			spec: func(s *SubRing, o, x, y, z, a, b uint64) bool { return o < 2*s.Modulus && vCong(vShl64(o), vMulB(x, y), s.Modulus) }},
+			spec: func(s *SubRing, o, x, y, z, a, b uint64) bool {
+				return o < 2*s.Modulus && vCong(vShl64(o), vMulB(x, y), s.Modulus)
+			}},
 		{name: "MulCoeffsMontgomeryThenAdd",
-			run:  func(s *SubRing, p1, p2, p3 []uint64, a, b uint64) { s.MulCoeffsMontgomeryThenAdd(p1, p2, p3) },
-			lane: func(s *SubRing, x, y, z, a, b uint64) uint64 { return CRed(z+MRed(x, y, s.Modulus, s.MRedConstant), s.Modulus) },
+			run: func(s *SubRing, p1, p2, p3 []uint64, a, b uint64) { s.MulCoeffsMontgomeryThenAdd(p1, p2, p3) },
+			lane: func(s *SubRing, x, y, z, a, b uint64) uint64 {
+				return CRed(z+MRed(x, y, s.Modulus, s.MRedConstant), s.Modulus)
+			},
 			spec: func(s *SubRing, o, x, y, z, a, b uint64) bool {
 				return o < s.Modulus && vCong(vShl64(o), vAddB(vShl64(z), vMulB(x, y)), s.Modulus)
 			}},
@@ -127,35 +149,49 @@ func vVecCases() []vVecCase {
 				return o <= s.Modulus && vCong(vShl64(o), vSubB(vShl64(z), vMulB(x, y)), s.Modulus)
 			}},
 		{name: "MulCoeffsMontgomeryThenSubLazy",
-			run:  func(s *SubRing, p1, p2, p3 []uint64, a, b uint64) { s.MulCoeffsMontgomeryThenSubLazy(p1, p2, p3) },
-			lane: func(s *SubRing, x, y, z, a, b uint64) uint64 { return z + (s.Modulus - MRed(x, y, s.Modulus, s.MRedConstant)) },
+			run: func(s *SubRing, p1, p2, p3 []uint64, a, b uint64) { s.MulCoeffsMontgomeryThenSubLazy(p1, p2, p3) },
+			lane: func(s *SubRing, x, y, z, a, b uint64) uint64 {
+				return z + (s.Modulus - MRed(x, y, s.Modulus, s.MRedConstant))
+			},
 			spec: func(s *SubRing, o, x, y, z, a, b uint64) bool {
 				return o <= 2*s.Modulus-1 && vCong(vShl64(o), vSubB(vShl64(z), vMulB(x, y)), s.Modulus)
 			}},
 		{name: "MulCoeffsMontgomeryLazyThenSubLazy",
-			run:  func(s *SubRing, p1, p2, p3 []uint64, a, b uint64) { s.MulCoeffsMontgomeryLazyThenSubLazy(p1, p2, p3) },
-			lane: func(s *SubRing, x, y, z, a, b uint64) uint64 { return z + ((s.Modulus << 1) - MRedLazy(x, y, s.Modulus, s.MRedConstant)) },
+			run: func(s *SubRing, p1, p2, p3 []uint64, a, b uint64) { s.MulCoeffsMontgomeryLazyThenSubLazy(p1, p2, p3) },
+			lane: func(s *SubRing, x, y, z, a, b uint64) uint64 {
+				return z + ((s.Modulus << 1) - MRedLazy(x, y, s.Modulus, s.MRedConstant))
+			},
 			spec: func(s *SubRing, o, x, y, z, a, b uint64) bool {
 				return o <= 3*s.Modulus-2 && vCong(vShl64(o), vSubB(vShl64(z), vMulB(x, y)), s.Modulus)
 			}},
 		{name: "MulCoeffsMontgomeryLazyThenNeg",
-			run:  func(s *SubRing, p1, p2, p3 []uint64, a, b uint64) { s.MulCoeffsMontgomeryLazyThenNeg(p1, p2, p3) },
-			lane: func(s *SubRing, x, y, z, a, b uint64) uint64 { return (s.Modulus << 1) - MRedLazy(x, y, s.Modulus, s.MRedConstant) },
+			run: func(s *SubRing, p1, p2, p3 []uint64, a, b uint64) { s.MulCoeffsMontgomeryLazyThenNeg(p1, p2, p3) },
+			lane: func(s *SubRing, x, y, z, a, b uint64) uint64 {
+				return (s.Modulus << 1) - MRedLazy(x, y, s.Modulus, s.MRedConstant)
+			},
 			spec: func(s *SubRing, o, x, y, z, a, b uint64) bool {
 				return o <= 2*s.Modulus-1 && vCong(vShl64(o), vSubB(new(big.Int), vMulB(x, y)), s.Modulus)
 			}},
 		{name: "AddLazyThenMulScalarMontgomery",
 			run:  func(s *SubRing, p1, p2, p3 []uint64, a, b uint64) { s.AddLazyThenMulScalarMontgomery(p1, p2, a, p3) },
 			lane: func(s *SubRing, x, y, z, a, b uint64) uint64 { return MRed(x+y, a, s.Modulus, s.MRedConstant) },
-			spec: func(s *SubRing, o, x, y, z, a, b uint64) bool { return o < s.Modulus && vCong(vShl64(o), vMulB(x+y, a), s.Modulus) }},
+			spec: func(s *SubRing, o, x, y, z, a, b uint64) bool {
+				return o < s.Modulus && vCong(vShl64(o), vMulB(x+y, a), s.Modulus)
+			}},
 		{name: "AddScalarLazyThenMulScalarMontgomery",
-			run:  func(s *SubRing, p1, p2, p3 []uint64, a, b uint64) { s.AddScalarLazyThenMulScalarMontgomery(p1, a, b, p3) },
+			run: func(s *SubRing, p1, p2, p3 []uint64, a, b uint64) {
+				s.AddScalarLazyThenMulScalarMontgomery(p1, a, b, p3)
+			},
 			lane: func(s *SubRing, x, y, z, a, b uint64) uint64 { return MRed(x+a, b, s.Modulus, s.MRedConstant) },
-			spec: func(s *SubRing, o, x, y, z, a, b uint64) bool { return o < s.Modulus && vCong(vShl64(o), vMulB(x+a, b), s.Modulus) }},
+			spec: func(s *SubRing, o, x, y, z, a, b uint64) bool {
+				return o < s.Modulus && vCong(vShl64(o), vMulB(x+a, b), s.Modulus)
+			}},
 		{name: "AddScalar",
 			run:  func(s *SubRing, p1, p2, p3 []uint64, a, b uint64) { s.AddScalar(p1, a, p3) },
 			lane: func(s *SubRing, x, y, z, a, b uint64) uint64 { return CRed(x+a, s.Modulus) },
-			spec: func(s *SubRing, o, x, y, z, a, b uint64) bool { return o < s.Modulus && vCong(vB(o), vAddB(vB(x), vB(a)), s.Modulus) }},
+			spec: func(s *SubRing, o, x, y, z, a, b uint64) bool {
+				return o < s.Modulus && vCong(vB(o), vAddB(vB(x), vB(a)), s.Modulus)
+			}},
 		{name: "AddScalarLazy",
 			run:  func(s *SubRing, p1, p2, p3 []uint64, a, b uint64) { s.AddScalarLazy(p1, a, p3) },
 			lane: func(s *SubRing, x, y, z, a, b uint64) uint64 { return x + a },
@@ -169,45 +205,65 @@ func vVecCases() []vVecCase {
 		{name: "SubScalar",
 			run:  func(s *SubRing, p1, p2, p3 []uint64, a, b uint64) { s.SubScalar(p1, a, p3) },
 			lane: func(s *SubRing, x, y, z, a, b uint64) uint64 { return CRed(x+s.Modulus-a, s.Modulus) },
-			spec: func(s *SubRing, o, x, y, z, a, b uint64) bool { return o < s.Modulus && vCong(vB(o), vSubB(vB(x), vB(a)), s.Modulus) }},
+			spec: func(s *SubRing, o, x, y, z, a, b uint64) bool {
+				return o < s.Modulus && vCong(vB(o), vSubB(vB(x), vB(a)), s.Modulus)
+			}},
 		{name: "MulScalarMontgomery",
 			run:  func(s *SubRing, p1, p2, p3 []uint64, a, b uint64) { s.MulScalarMontgomery(p1, a, p3) },
 			lane: func(s *SubRing, x, y, z, a, b uint64) uint64 { return MRed(x, a, s.Modulus, s.MRedConstant) },
-			spec: func(s *SubRing, o, x, y, z, a, b uint64) bool { return o < s.Modulus && vCong(vShl64(o), vMulB(x, a), s.Modulus) }},
+			spec: func(s *SubRing, o, x, y, z, a, b uint64) bool {
+				return o < s.Modulus && vCong(vShl64(o), vMulB(x, a), s.Modulus)
+			}},
 		{name: "MulScalarMontgomeryLazy",
 			run:  func(s *SubRing, p1, p2, p3 []uint64, a, b uint64) { s.MulScalarMontgomeryLazy(p1, a, p3) },
 			lane: func(s *SubRing, x, y, z, a, b uint64) uint64 { return MRedLazy(x, a, s.Modulus, s.MRedConstant) },
-			spec: func(s *SubRing, o, x, y, z, a, b uint64) bool { return o < 2*s.Modulus && vCong(vShl64(o), vMulB(x, a), s.Modulus) }},
+			spec: func(s *SubRing, o, x, y, z, a, b uint64) bool {
+				return o < 2*s.Modulus && vCong(vShl64(o), vMulB(x, a), s.Modulus)
+			}},
 		{name: "MulScalarMontgomeryThenAdd",
-			run:  func(s *SubRing, p1, p2, p3 []uint64, a, b uint64) { s.MulScalarMontgomeryThenAdd(p1, a, p3) },
-			lane: func(s *SubRing, x, y, z, a, b uint64) uint64 { return CRed(z+MRed(x, a, s.Modulus, s.MRedConstant), s.Modulus) },
+			run: func(s *SubRing, p1, p2, p3 []uint64, a, b uint64) { s.MulScalarMontgomeryThenAdd(p1, a, p3) },
+			lane: func(s *SubRing, x, y, z, a, b uint64) uint64 {
+				return CRed(z+MRed(x, a, s.Modulus, s.MRedConstant), s.Modulus)
+			},
 			spec: func(s *SubRing, o, x, y, z, a, b uint64) bool {
 				return o < s.Modulus && vCong(vShl64(o), vAddB(vShl64(z), vMulB(x, a)), s.Modulus)
 			}},
 		{name: "MulScalarMontgomeryThenAddScalar",
-			run:  func(s *SubRing, p1, p2, p3 []uint64, a, b uint64) { s.MulScalarMontgomeryThenAddScalar(p1, a, b, p3) },
-			lane: func(s *SubRing, x, y, z, a, b uint64) uint64 { return CRed(MRed(x, b, s.Modulus, s.MRedConstant)+a, s.Modulus) },
+			run: func(s *SubRing, p1, p2, p3 []uint64, a, b uint64) { s.MulScalarMontgomeryThenAddScalar(p1, a, b, p3) },
+			lane: func(s *SubRing, x, y, z, a, b uint64) uint64 {
+				return CRed(MRed(x, b, s.Modulus, s.MRedConstant)+a, s.Modulus)
+			},
 			spec: func(s *SubRing, o, x, y, z, a, b uint64) bool {
 				return o < s.Modulus && vCong(vShl64(o), vAddB(vShl64(a), vMulB(x, b)), s.Modulus)
 			}},
 		{name: "SubThenMulScalarMontgomeryTwoModulus", lazy1: 6, lazy2: 2, // p1: NTTLazy output, p2 in [0, 2q)
-			run:  func(s *SubRing, p1, p2, p3 []uint64, a, b uint64) { s.SubThenMulScalarMontgomeryTwoModulus(p1, p2, a, p3) },
-			lane: func(s *SubRing, x, y, z, a, b uint64) uint64 { return MRed((s.Modulus<<1)-y+x, a, s.Modulus, s.MRedConstant) },
+			run: func(s *SubRing, p1, p2, p3 []uint64, a, b uint64) {
+				s.SubThenMulScalarMontgomeryTwoModulus(p1, p2, a, p3)
+			},
+			lane: func(s *SubRing, x, y, z, a, b uint64) uint64 {
+				return MRed((s.Modulus<<1)-y+x, a, s.Modulus, s.MRedConstant)
+			},
 			spec: func(s *SubRing, o, x, y, z, a, b uint64) bool {
 				return o < s.Modulus && vCong(vShl64(o), vMulB((s.Modulus<<1)-y+x, a), s.Modulus)
 			}},
 		{name: "MForm", wide: true,
 			run:  func(s *SubRing, p1, p2, p3 []uint64, a, b uint64) { s.MForm(p1, p3) },
 			lane: func(s *SubRing, x, y, z, a, b uint64) uint64 { return MForm(x, s.Modulus, s.BRedConstant) },
-			spec: func(s *SubRing, o, x, y, z, a, b uint64) bool { return o < s.Modulus && vCong(vB(o), vShl64(x), s.Modulus) }},
+			spec: func(s *SubRing, o, x, y, z, a, b uint64) bool {
+				return o < s.Modulus && vCong(vB(o), vShl64(x), s.Modulus)
+			}},
 		{name: "MFormLazy", wide: true,
 			run:  func(s *SubRing, p1, p2, p3 []uint64, a, b uint64) { s.MFormLazy(p1, p3) },
 			lane: func(s *SubRing, x, y, z, a, b uint64) uint64 { return MFormLazy(x, s.Modulus, s.BRedConstant) },
-			spec: func(s *SubRing, o, x, y, z, a, b uint64) bool { return o < 2*s.Modulus && vCong(vB(o), vShl64(x), s.Modulus) }},
+			spec: func(s *SubRing, o, x, y, z, a, b uint64) bool {
+				return o < 2*s.Modulus && vCong(vB(o), vShl64(x), s.Modulus)
+			}},
 		{name: "IMForm", wide: true,
 			run:  func(s *SubRing, p1, p2, p3 []uint64, a, b uint64) { s.IMForm(p1, p3) },
 			lane: func(s *SubRing, x, y, z, a, b uint64) uint64 { return IMForm(x, s.Modulus, s.MRedConstant) },
-			spec: func(s *SubRing, o, x, y, z, a, b uint64) bool { return o < s.Modulus && vCong(vShl64(o), vB(x), s.Modulus) }},
+			spec: func(s *SubRing, o, x, y, z, a, b uint64) bool {
+				return o < s.Modulus && vCong(vShl64(o), vB(x), s.Modulus)
+			}},
 	}
 }
 
